@@ -350,6 +350,10 @@ func init() {
 			return s
 		}
 		if c.Replay != nil {
+			if _, ok := c.Replay["two_scanners"]; ok {
+				c11TwoScanners(c)
+				return
+			}
 			if _, ok := c.Replay["collector"]; ok {
 				c11Collector(c)
 				return
@@ -605,6 +609,12 @@ func init() {
 			c.Run.Set("collector_points", points)
 			c.Run.Set("collector_points_with_finalisers_drained", drained)
 		}
+		{
+			e, cases := c11TwoScanners(c)
+			evals += e
+			configs += cases
+			c.Run.Set("two_scanner_schedules", cases)
+		}
 		c.Run.Set("corpus_rules_scanned_and_retrieved", corpusRules)
 		c.Run.Set("list_shape_assignments", int64(len(shapes)))
 		c.Run.Set("line_symbols", int64(len(syms)))
@@ -613,7 +623,7 @@ func init() {
 		c.Run.Set("configurations", configs)
 		c.Run.Set("evaluations", evals)
 		c.Run.Set("distinct_nontrivial", configs)
-		c.Run.Set("rule", fmt.Sprintf("every content of <=%d lines over %d line kinds (valid/comment/blank/cosmetic/rejected/hosts/UTF-8/NUL/long lines of 4094..8193 bytes around the 4 KiB block boundaries) x LF/CRLF x final newline x IgnoreCosmetic x String/File backing; every injective assignment of ids from {0,1,-1,2,MaxInt32,MinInt32} to 1..4 lists; every assignment of 5 list shapes (rules, empty, comment-only, ignored cosmetic, one rule) to 1..4 lists; scan vs line-by-line reference, retrieval in reverse/forward/cold/cached order, String vs File engine answers; a garbage collection with the finaliser queue drained before the scan and after the k-th rule (stated set of k; thorough: every 7th of 1200) of a file-backed scanner whose list/storage is no longer referenced; every configuration is distinct", maxLines, len(syms)))
+		c.Run.Set("rule", fmt.Sprintf("every content of <=%d lines over %d line kinds (valid/comment/blank/cosmetic/rejected/hosts/UTF-8/NUL/long lines of 4094..8193 bytes around the 4 KiB block boundaries) x LF/CRLF x final newline x IgnoreCosmetic x String/File backing; every injective assignment of ids from {0,1,-1,2,MaxInt32,MinInt32} to 1..4 lists; every assignment of 5 list shapes (rules, empty, comment-only, ignored cosmetic, one rule) to 1..4 lists; scan vs line-by-line reference, retrieval in reverse/forward/cold/cached order, String vs File engine answers; a garbage collection with the finaliser queue drained before the scan and after the k-th rule (stated set of k; thorough: every 7th of 1200) of a file-backed scanner whose list/storage is no longer referenced; two scanners of one in-memory storage with every split point (k rules of the first, then j of the second, either drained first); every configuration is distinct", maxLines, len(syms)))
 		c.Run.Set("exhaustive", exhaustive)
 		c.Run.Assumption("rules.NewRule is the line parser on both sides (the property is about scanner, index and stores)")
 		c.Run.Assumption("retrieval happens after the scan has finished; interleaving scan and retrieval on one file list is outside the quantifier")
